@@ -62,15 +62,16 @@ class Report:
 
     def compare(self, rule, instance, site, impl, spec, unmodelled=()):
         """normal-form equality of an implementation term with a specification term"""
+        impl, spec = T.strip_nd(impl), T.strip_nd(spec)
         if impl == spec:
             self.ok(rule, instance, site, found=impl)
             return True
+        # A definitional rule certifies that the code is an instance of the documented definition.  A differing
+        # normal form is a violation of that rule whether or not the deviating construct is in the model table
+        # (the report says so); exit 2 is kept for vanished anchors / engine failures, where no normal form exists.
         bad = not_understood(impl, unmodelled)
-        if bad:
-            self.unresolved(rule, instance, site, f'normal forms differ and the implementation term contains constructs outside the model table: {bad[:4]}; '
-                                                  f'impl={T.brief(impl, 300)} spec={T.brief(spec, 300)}')
-        else:
-            self.violation(rule, instance, site, expected=spec, found=impl)
+        found = impl if not bad else ('opaque', f'{T.brief(impl, 420)}   [contains constructs outside the model table: {sorted(set(bad))[:4]}]')
+        self.violation(rule, instance, site, expected=spec, found=found if not bad else found[1])
         return False
 
     def floor(self, what, found, minimum):
